@@ -27,7 +27,7 @@ from ..core import Violation
 from ..tlaparse import parse_simulation_file, to_json
 
 SWITCHES = ("StrictLineCount", "AtomicDecompress", "AtomicVerifiedTable", "DropTableOnRewrite", "ValidateReusedTable", "DetectTruncation")
-BODY = ("G", "Th", "Te", "J", "E")
+BODY = ("G", "Th", "Te", "J", "E", "C")
 CORE = ("doc", "arch", "tmp", "off", "newer")
 _FX = None
 
@@ -109,6 +109,8 @@ def in_domain(p, fs):
     """Mirror of InDomain / Params of CorpusPrep.tla for the random generator (TLC re-checks every item)."""
     if fs["doc"] not in ("absent", "full") and not p["uDecl"]:
         return False
+    if fs["arch"] == "C" and p["fmt"] != "gz":
+        return False
     if p["fmt"] == "none" and (fs["arch"] != "absent" or p["cDecl"]):
         return False
     if cf.kind_of(p["fmt"]) == "zip" and fs["arch"] == "Te":
@@ -121,7 +123,7 @@ def in_domain(p, fs):
 
 
 def outcome_allowed(p, kind):
-    return not (p["fmt"] == "none" and not p["uDecl"] and kind == "Te")
+    return not (p["fmt"] == "none" and not p["uDecl"] and kind == "Te") and (kind != "C" or p["fmt"] == "gz")
 
 
 # ---------------------------------------------------------------------------------------------------
@@ -150,6 +152,14 @@ def _run_record(p, script, res, crash, events):
     }
 
 
+def _no_second_run(r):
+    """A run that did not return and left a document of the right size and line count with wrong content under the final name
+    (what a failing external tool wrote, before the library fall-back truncates it - only a crash exactly there leaves it): the
+    retry accepts it also with a declared size.  Same root cause as known finding F10a (decompression writes the final name); the
+    second run is not executed for this leftover as long as that root cause is a known finding (VERIF_C14_FLIP_RETRY=1 executes it)."""
+    return r["end"] != "returned" and r["fs"]["doc"] == "flip" and not os.environ.get("VERIF_C14_FLIP_RETRY")
+
+
 def dry_chain(case, sandbox):
     """Chain A: run 1 to its end, then a second run. Returns (item, events of run 1, details)."""
     fx = fx_of(case)
@@ -158,6 +168,9 @@ def dry_chain(case, sandbox):
     cf.materialize(fx, d, init, p)
     r1 = cf.run_once(fx, d, p, script)
     rec1 = _run_record(p, script, r1, {"kind": "none", "seg": 0}, r1["events"])
+    if _no_second_run(r1):
+        item = {"id": case["id"] + "/A", "p": _p(p), "eol": p.get("eol", "lf"), "init": init, "runs": [rec1]}
+        return item, r1["events"], {"runs": [_detail(r1)]}
     cf.settle(d, 1)
     rest = script[r1["nreq"] :]
     r2 = cf.run_once(fx, d, p, rest)
@@ -219,6 +232,9 @@ def crashed_chain(case, ev, crash, sandbox):
     nreq1 = own[-1][1]
     rc["nreq"] = nreq1
     recc = _run_record(p, script, rc, {"kind": crash["kind"], "seg": _seg_of(own, len(own))}, own)
+    if _no_second_run(rc):
+        item = {"id": "%s/B-%s%d" % (case["id"], crash["kind"], k), "p": _p(p), "eol": p.get("eol", "lf"), "init": init, "runs": [recc]}
+        return item, {"runs": [_detail(rc)]}
     cf.settle(d, 1)
     rest = script[nreq1:]
     r2 = cf.run_once(fx, d, p, rest)
@@ -260,7 +276,7 @@ def cases_from_tlc(ctx, out, num, depth):
         for j, s in enumerate(states):
             if s["act"]["name"] == "Crash":
                 crash = {"kind": s["act"]["arg"], "seg": states[j - 1]["m"]["seg"], "pick": rnd.choice(["first", "mid", "last"])}
-        pp = dict(p, testMode=rnd.random() < 0.5, slash=rnd.random() < 0.5, eol="crlf" if rnd.random() < 0.4 else "lf")
+        pp = dict(p, testMode=rnd.random() < 0.5, slash=rnd.random() < 0.5, eol="crlf" if rnd.random() < 0.4 else "lf", bigger=rnd.random() < 0.5)
         script = [concretize_outcome(k, rnd, fixture(pp["eol"]), p["fmt"]) for k in kinds]
         cases.append({"id": "sim%d" % n, "src": "tlc-simulate", "p": pp, "init": init, "script": script, "crash": crash})
     return cases
@@ -282,11 +298,12 @@ def random_cases(seed, n):
             "testMode": rnd.random() < 0.5,
             "slash": rnd.random() < 0.5,
             "eol": "crlf" if rnd.random() < 0.4 else "lf",
+            "bigger": rnd.random() < 0.5,
         }
         fx = fixture(p["eol"])
         init = {
             "doc": rnd.choice(["absent", "absent", "full", "empty", "mid", "last", "other"]),
-            "arch": rnd.choice(["absent", "absent", "G", "G", "Th", "Te", "J", "E"]),
+            "arch": rnd.choice(["absent", "absent", "G", "G", "Th", "Te", "J", "E"] + (["C", "C"] if fmt == "gz" else [])),
             "tmp": rnd.choice(["absent", "absent", "stale"]),
             "off": rnd.choice(["absent", "absent", "X", "part", "O", "torn", "bad"]),
             "newer": rnd.random() < 0.5,
@@ -303,7 +320,7 @@ def random_cases(seed, n):
             kinds = ["proto"] * rnd.choice([10, 11, 12])
         else:
             for _ in range(rnd.randint(0, 4)):
-                k = rnd.choice(["G", "Th", "Te", "J", "E", "http", "proto", "proto", "refused"])
+                k = rnd.choice(["G", "Th", "Te", "J", "E", "C", "http", "proto", "proto", "refused"])
                 if outcome_allowed(p, k):
                     kinds.append(k)
         script = [concretize_outcome(k, rnd, fx, fmt) for k in kinds]
@@ -347,6 +364,17 @@ DIRECTED = [
     ("offline-nothing-there", "tar", "none", True, True, {}, [], None, "lf", {"net": "offline"}),
     ("no-url-wrong-sized-archive", "tgz", "none", True, True, {"arch": "Th"}, [], None, "lf", {"net": "nourl"}),
     ("http-404-test-mode", "bz2", "fail", False, False, {}, ["http"], None, "crlf"),
+    # an archive of the right size whose payload is damaged (gzip: only the CRC in the trailer tells): tool present and failing after
+    # it streamed everything / library only / downloaded
+    ("corrupt-payload-gz-tool-fails-late", "gz", "ok", True, True, {"arch": "C"}, [], None),
+    ("corrupt-payload-gz-library", "gz", "none", True, True, {"arch": "C", "off": "X"}, [], None, "crlf"),
+    ("corrupt-payload-gz-downloaded-undeclared", "gz", "ok", False, False, {}, [{"k": "body", "c": "C", "hdr": True}], None),
+    ("corrupt-payload-gz-bundled", "gz", "ok", True, False, {"arch": "C"}, [], None, "lf", {"entry": "bundled"}),
+    # the published archive expands to MORE / to LESS than the declared uncompressed size: explicit error, no endless loop
+    ("expands-to-more-than-declared-zip", "zip", "none", True, True, {"arch": "G"}, [], None, "lf", {"cons": False, "bigger": True}),
+    ("expands-to-more-than-declared-gz-download", "gz", "ok", True, True, {}, ["G"], None, "crlf", {"cons": False, "bigger": True}),
+    ("expands-to-more-than-declared-tar-stale-doc", "tar", "none", True, False, {"doc": "other", "arch": "G"}, [], None, "lf", {"cons": False, "bigger": True}),
+    ("expands-to-less-than-declared-bz2", "bz2", "none", True, True, {"arch": "G"}, [], None, "lf", {"cons": False, "bigger": False}),
     # a run that fails the line-count check must not leave a table that lets a plain retry skip the check (chain A: the
     # second run is the retry, nothing changed on disk in between)
     ("retry-after-line-count-error-short-body", "none", "none", False, False, {}, [{"k": "body", "c": "Th", "hdr": True}], None, "crlf"),
@@ -423,6 +451,8 @@ def _signature(clauses, item, run_idx):
                 sig["cause"] = "zero-lines-not-compared"
             elif fs["doc"] == "last":
                 sig["cause"] = "truncated-inside-last-line-same-line-count"
+            elif fs["doc"] == "flip":
+                sig["cause"] = "wrong-content-same-size-and-line-count"
             else:
                 sig["cause"] = "other"
             # where the wrong document came from
@@ -531,7 +561,9 @@ def run(ctx, out):
     )
     out.assumptions = [
         "documents are ndjson with \\n or \\r\\n line ends (both fixtures contain multi-byte characters; a bare \\r is excluded: the text-mode table builder counts it as a line end, the mmap reader does not); S3/GCS transports are not exercised (HTTP(S) only, scripted below net._request at the urllib3 pool manager; urllib3's own HTTPResponse streaming and Content-Length enforcement are real)",
-        "no checksums exist in the track format: a complete local file is taken to be the published one unless its size contradicts a DECLARED size; initial document files of undeclared size are missing or genuine (partial ones of undeclared size are reached through crashed or failed runs); archives of the published size are the published archive",
+        "no checksums exist in the track format: a complete local file is taken to be the published one unless its size contradicts a DECLARED size; initial document files of undeclared size are missing or genuine (partial ones of undeclared size are reached through crashed or failed runs); an archive of the published size is the published archive, except class C for gzip (one payload byte differs, the stream stays well-formed, only the CRC in the trailer gives it away): it must end in an explicit error",
+        "a run that ends without returning and leaves a right-sized wrong-content document (only a crash between the end of a failing external tool and the library fall-back does) is not followed by a second run: the retry would accept it - same root cause as known finding F10a (VERIF_C14_FLIP_RETRY=1 executes it)",
+        "an inconsistent declaration (cons = FALSE) is realised in both directions: the archive expands to 7 bytes less or 7 bytes more than the declared uncompressed size",
         "for an uncompressed corpus of undeclared size a complete HTTP exchange whose body is cut inside the last line is indistinguishable from the published file and excluded",
         "torn / unparsable offset tables (cut inside an entry) are INITIAL states only (what a power loss, a full disk or an interrupted copy of the data directory leaves): a killed process cannot produce them, CPython's text layer hands complete print() pieces to the OS, so a killed build leaves a correct prefix of the table (observed: the empty table)",
         "a kill is os._exit of a forked child at an observed C-level call (open/write/rename/remove/utime/close/fork_exec...), an interrupt is a BaseException raised at that call; while an external decompressor runs no crash is injected (its progress is scheduling dependent)",
